@@ -216,7 +216,7 @@ func VxC04_Cmt8() { vxC04(8, 3) }
 // words are concrete rows and only the separators between them are symbolic bytes
 
 var vxWords1 = []string{"GROUP", "order", "Left", "RIGHT", "inner", "OUTER", "cross", "NATURAL", "full", "GROUPING", "a", "SELECT", "LEFTY"}
-var vxWords2 = []string{"BY", "by", "JOIN", "join", "SETS", "OUTER", "x", "BYE", "1", ""}
+var vxWords2 = []string{"BY", "by", "JOIN", "join", "SETS", "OUTER", "x", "BYE", "1", "", "JOINS", "joined", "SETS1", "JOI", "OUTERX", "B"}
 var vxWords3 = []string{"", "JOIN", "b"}
 var vxSepAlphabet = []int{' ', '\n', '-', ','}
 
@@ -240,6 +240,52 @@ func vxC04Words(maxSep int) {
 }
 
 func VxC04_Words2() { vxC04Words(2) }
+
+// C13 (location part) behind a compound-keyword look-ahead: a lexical error that follows
+// word / separators / word must be reported on the line the failing element is written on
+// (the look-ahead skips white space and must not leave line/column counters advanced).
+var vxErrTails = []string{"'\\q'", "$$a", "\"a\nb\"", "'a"}
+
+func vxC13WordsErr(maxSep int) {
+	var in []byte
+	in = append(in, vxWords1[vx.Choice(len(vxWords1))]...)
+	in = append(in, vxSep(maxSep)...)
+	in = append(in, vxWords2[vx.Choice(len(vxWords2))]...)
+	in = append(in, ' ')
+	in = append(in, vxSep(1)...)
+	start := 1
+	for _, b := range in {
+		if b == '\n' {
+			start++
+		}
+	}
+	k := vx.Choice(len(vxErrTails))
+	in = append(in, vxErrTails[k]...)
+	tk, _ := New()
+	_, err := tk.Tokenize(in)
+	vx.Notef("in=%q err=%v", in, err != nil)
+	if err == nil {
+		return
+	}
+	var se *goerrors.Error
+	if !errors.As(err, &se) {
+		vx.Assertf("C13.tok_structured", false, "tokenizer error is not a *errors.Error: %v", err)
+		return
+	}
+	vx.Assert("C13.tok_structured", true)
+	last := start
+	for _, b := range []byte(vxErrTails[k]) {
+		if b == '\n' {
+			last++
+		}
+	}
+	if se.Location.Line != 0 || se.Location.Column != 0 {
+		vx.Assertf("C13.tok_error_line", se.Location.Line >= start && se.Location.Line <= last, "%s reported at line %d, the failing element spans lines %d..%d", se.Code, se.Location.Line, start, last)
+	}
+}
+
+func VxC13_WordsErr2() { vxC13WordsErr(2) }
+func VxC13_WordsErr3() { vxC13WordsErr(3) }
 func VxC04_Words3() { vxC04Words(3) }
 
 // ---- keyword table sweep: every entry of the tokenizer's own keyword table, whatever its length,
